@@ -335,6 +335,12 @@ class ExprMixin(object):
             return V(a.ty, z3.If(c, a.t, b.t))
         ty = join_ty(a.ty, b.ty)
         if ty is None:
+            co = getattr(self.reg, "coercions", {})
+            if (b.ty.key, a.ty.key) in co:
+                ty = a.ty
+            elif (a.ty.key, b.ty.key) in co:
+                ty = b.ty
+        if ty is None:
             raise OutsideSubset("no common type for %r / %r" % (a.ty, b.ty))
         return self._select(c, self.adapt(a, ty), self.adapt(b, ty))
 
@@ -438,12 +444,38 @@ class ExprMixin(object):
             if len(outs) != 1:
                 raise OutsideSubset("__contains__ must be total")
             return truthy(outs[0][1])
+        dl = self.dictlike(c.ty)
+        if dl is not None and x.ty is STR:
+            return z3.And(self.dl_ismap(c, dl), core.smem(core.mdom(self.dl_sub(c, dl)), x))
         if c.ty is PY:
             P = core.py_sort()
             eo = CTX.func("empty_obj", z3.IntSort(), z3.IntSort())
             not_empty = z3.And([c.t != P.PObj(eo(z3.IntVal(i))) for i in range(3)] + [c.t != P.PNone])
             return z3.And(not_empty, core.ufun("py_contains", [c, core.to_py(x)], BOOL).t)
         return core.contains(c, x)
+
+    # -- dict-like opaque values (documents: nested mappings whose leaves are opaque) ----------------------------------
+    def dictlike(self, ty):
+        if isinstance(ty, Opt):
+            ty = ty.elem
+        return getattr(self.reg, "dictlike", {}).get(ty.name) if isinstance(ty, U) else None
+
+    def dl_ismap(self, v, dl):
+        if isinstance(v.ty, Opt):
+            return z3.And(z3.Not(core.ois_none(v)), self.dl_ismap(core.oval(v), dl))
+        return core.ufun("sf_" + dl["is_map"], [v], BOOL).t
+
+    def dl_sub(self, v, dl):
+        if isinstance(v.ty, Opt):
+            v = core.oval(v)
+        return core.ufun("sf_" + dl["sub"], [v], Map(STR, v.ty))
+
+    def dl_mk(self, m, dl, st):
+        """node made from a mapping: sub(mk(m)) == m and is_map(mk(m)) (ground instances of the constructor axioms)"""
+        nty = m.ty.v
+        n = core.ufun("sf_" + dl["mk"], [m], nty)
+        st.assume(core.ufun("sf_" + dl["is_map"], [n], BOOL).t, core.map_eq(core.ufun("sf_" + dl["sub"], [n], m.ty), m))
+        return n
 
     def ex_BinOp(self, e, st):
         res = []
@@ -617,6 +649,15 @@ class ExprMixin(object):
             return [(ok, core.mget(c, k))] if ok is not None else []
         if isinstance(c.ty, Ref):
             return self.call_method(c, "__getitem__", [k], {}, st, node)
+        dl = self.dictlike(c.ty)
+        if dl is not None and not isinstance(c.ty, Opt) and k.ty is STR:
+            sub = self.dl_sub(c, dl)
+            if self.in_spec:
+                return [(st, core.mget(sub, k))]
+            ok, bad = self.fork(st, z3.And(self.dl_ismap(c, dl), core.mhas(sub, k)), line, "dockey")
+            if bad is not None:
+                self.do_raise(bad, "Exception")       # KeyError (missing) or TypeError (not a mapping)
+            return [(ok, core.mget(sub, k))] if ok is not None else []
         if isinstance(c.ty, Opt):
             if self.in_spec:
                 return self.subscript(core.oval(c), k, st, node)
@@ -913,6 +954,12 @@ def _same_store(a, b):
 
 def join_ty(a, b):
     if a == b:
+        return a
+    if isinstance(a, U) and b is EMPTY_DICT:
+        return a
+    if isinstance(b, U) and a is EMPTY_DICT:
+        return b
+    if isinstance(a, Opt) and isinstance(a.elem, U) and b is EMPTY_DICT:
         return a
     if a is NONE and b is PY:
         return PY
